@@ -7,6 +7,8 @@ import numpy as np
 from typing import Type
 from typing import Union
 
+from smpl_extract import _verif_trace as _vt
+
 
 class AttemptToReadBeyondBuffer(Exception): ...
 class SectorReadError(Exception): ...
@@ -27,6 +29,9 @@ class StreamWrapper(IOBase):
         self.position = position 
         self.buffer_length = buffer_length
         self.true_size = buffer_length
+        if _vt.ON:
+            _vt.emit("View", id=_vt.ident(self), cls=type(self).__name__, size=size, pos=position,
+                     parent=_vt.ident(substream) if isinstance(substream, StreamWrapper) else 0)
 
 
     def _translate_addr(self, address: int)->int:
@@ -64,6 +69,8 @@ class StreamWrapper(IOBase):
         self.true_size = 0
         self._seek(new_position)
         self.position = new_position
+        if _vt.ON:
+            _vt.emit("Seek", id=_vt.ident(self), off=offset, whence=whence, start=starting_position, after=new_position)
         return new_position
 
 
@@ -85,6 +92,8 @@ class StreamWrapper(IOBase):
 
         result = self._read(self.true_size)
         self.position += self.true_size
+        if _vt.ON:
+            _vt.emit("Read", id=_vt.ident(self), n=size, pos=self.position - self.true_size, after=self.position, len=len(result))
         return result
 
 
